@@ -67,4 +67,42 @@ theorem calls_shape (q : Req) (e : Ent) (now : Nat) (r : Resp) (h : serve q e no
       · exact ⟨[.getRange a b, .addHeaders], by simp [Br.resp, simpleResp, calls1, hm],
           Or.inr (Or.inr ⟨a, b, by rw [hbr] at hg; simp [Br.good] at hg; omega, Or.inr rfl⟩)⟩
 
+
+theorem parseModifiedHdrs_none (etag : Option Bytes) (mt : Option (Nat × Nat)) :
+    parseModifiedHdrs etag none none .absent .absent mt = .ok (false, false) := by
+  cases mt <;> simp [parseModifiedHdrs, precondFailed, notModified, anyMatch, noneMatch]
+
+theorem Br.resp_method (q q' : Req) (e : Ent) (now : Nat) (b : Br) (hm : q'.method = q.method) :
+    b.resp q' e now = b.resp q e now := by
+  cases b <;> simp [Br.resp, simpleResp, hm]
+
+/-- For ARBITRARY header bytes (grammatical or not): a response that is not 304, 400 or 412 is
+exactly the response to the same request with the four conditional headers removed — once the
+preconditions have passed they leave no trace (in particular they cannot influence what If-Range
+and Range decide). -/
+theorem passed_preconditions_leave_no_trace (q : Req) (e : Ent) (now : Nat) (r : Resp)
+    (h : serve q e now = .ok r) (hs : r.status ∉ [304, 400, 412]) :
+    serve { q with ifMatch := none, ifNoneMatch := none, ius := .absent, ims := .absent } e now
+      = .ok r := by
+  obtain ⟨hr, _⟩ := serve_ok h
+  rw [(serve_eq _ e now).1, hr]
+  suffices hc : classify ({ q with ifMatch := none, ifNoneMatch := none, ius := .absent, ims := .absent } : Req) e = classify q e by
+    rw [hc]; exact congrArg _ (Br.resp_method q _ e now _ rfl)
+  unfold classify
+  by_cases hm : q.method = .other
+  · simp [hm]
+  · simp only [hm, if_false]
+    unfold tailBr
+    simp only [parseModifiedHdrs_none]
+    cases hp : parseModifiedHdrs e.etag q.ifMatch q.ifNoneMatch q.ius q.ims e.mtime with
+    | error err =>
+      exfalso; apply hs; rw [hr]; simp [classify, hm, tailBr, hp, Br.resp]
+    | ok p =>
+      obtain ⟨pf, nm⟩ := p
+      cases pf
+      · cases nm
+        · rfl
+        · exfalso; apply hs; rw [hr]; simp [classify, hm, tailBr, hp, Br.resp]
+      · exfalso; apply hs; rw [hr]; simp [classify, hm, tailBr, hp, Br.resp]
+
 end HS
